@@ -95,6 +95,14 @@ Theorem C15_aligned_guard : forall sT aT al n sys, 1 <= sT ->
 Proof. exact c15_aligned_guard. Qed.
 Print Assumptions C15_aligned_guard.
 
+(* --- the model (with the stand-in system allocator) never serves a request the spec oracle calls unservable (n*sizeof T >= 2^47 bytes,
+       or beyond max_size): its traces pass the oracle that rejects "returned a block for an unservable request" on the implementation *)
+Theorem C15_unservable_refused : forall sT aT al n p, 1 <= sT ->
+  (c15_malloc_allocate sT aT n c15_sys_malloc c15_sys_aligned = C15Ok p \/ c15_aligned_allocate sT aT al n c15_sys_aligned = C15Ok p) ->
+  c15_spec_malloc_must_refuse sT n = false.
+Proof. exact c15_model_serves_servable. Qed.
+Print Assumptions C15_unservable_refused.
+
 (* --- C15_debug_layout (code after fixes/C15-2): requests that do not fit are refused; otherwise nothing wraps, the block lies in the
        mapping and ends exactly at the guard page, which is the last page of the mapping. *)
 Theorem C15_debug_layout : forall page ty sT n mm, 1 <= page -> 2 * page <= c15_size_max -> 1 <= sT ->
